@@ -47,14 +47,13 @@ extern ssize_t mpt_array_push(MPT_STRUCT(encode_array) *arr, size_t len, const v
 		    && b->_content_traits) {
 			return MPT_ERROR(BadType);
 		}
-		max = arr->_state.done + arr->_state.scratch;
+		/* data is appended behind existing content (consumed, finished and scratch part) */
+		max = b ? b->_used : 0;
 		if (!(dest = mpt_array_insert(&arr->_d, max, len))) {
 			return MPT_ERROR(MissingBuffer);
 		}
-		b = arr->_d._buf;
 		memcpy(dest, data, len);
 		arr->_state.scratch += len;
-		b->_used = max + len;
 		
 		return len;
 	}
